@@ -223,9 +223,13 @@ def make_objfun(case, o):
             r = r * (1.0 + noise.get("mult", 0.0) * z) + noise.get("add", 0.0) * z
         if fault is not None and (k == fault["k"] or (fault.get("sticky") and k >= fault["k"])):
             kind = fault["kind"]
-            if kind == "raise":
+            if kind.startswith("raise"):
+                # plain 'raise' is a user-defined exception class; the suffixed kinds are the classes dfols' own handlers
+                # catch around linear algebra / overflow guards (an evaluation moved inside such a try block would swallow them)
+                cls = {"raise": FaultInjected, "raise-linalg": np.linalg.LinAlgError, "raise-value": ValueError,
+                       "raise-overflow": OverflowError}[kind]
                 o.calls.append((xc, None))
-                o.raised_inside = FaultInjected("injected at evaluation %d" % k)
+                o.raised_inside = cls("injected at evaluation %d" % k)
                 raise o.raised_inside
             v = {"nan": np.nan, "inf": np.inf, "-inf": -np.inf, "big": 1e200}[kind]
             if fault.get("comp", "all") == "all":
@@ -526,7 +530,7 @@ DEFAULT_PROF = {
     "bounds": ["none", "box", "box", "lower", "upper", "mixed", "scaled"],
     "avg": True, "noise": True, "restarts": True, "opts": True, "noise_flag": True,
     "maxfuns": [1, 2, 3, "npt-1", "npt", "npt+1", 10, 30, 60, 150],
-    "diag": 0.5, "reg": 0.0, "npt_extra": True, "zero_resid": 0.1, "rhoend_exps": [1, 2, 3, 5, 8],
+    "diag": 0.5, "reg": 0.0, "proj": 0.0, "npt_extra": True, "zero_resid": 0.1, "rhoend_exps": [1, 2, 3, 5, 8],
 }
 
 
@@ -898,6 +902,8 @@ def scenarios(draw, prof=None):
     case["up"] = up
     case["np_seed"] = draw(st.integers(0, 2 ** 16))
     case["tags"] = sorted(set(tags))
+    if prof.get("proj") and n >= 2 and draw(st.floats(0, 1)) < prof["proj"]:
+        draw(attach_projections(case))
     return case
 
 
@@ -930,6 +936,41 @@ def draw_sets(draw, n, z, mag, kinds=("ball", "half", "box"), nmin=1, nmax=3, to
         else:
             raise HarnessError(kind)
     return sets
+
+
+@st.composite
+def attach_projections(draw, case, maxfun=25):
+    """Turns a drawn scenario into a projection-constrained one (in place): 1-2 convex sets around the old starting point,
+    no bounds / scaling / regulariser, and only the option families that the projected initialisation supports (DESIGN 3.4:
+    npt > n+1 needs random initial directions; a reduced initial set is the known finding 'projections-npt' of C07)."""
+    n = case["n"]
+    z = [float(v) for v in case["x0"]]
+    mag = max(1.0, max(abs(v) for v in z)) * 0.5
+    case["proj"] = draw(draw_sets(n, z, mag, nmin=1, nmax=2, touching=True))
+    case["scaling"] = False
+    case["lower"] = case["upper"] = None
+    case.pop("reg", None)
+    up = case["up"]
+    for k in [k for k in up if k.startswith("growing.") or k.startswith("func_tol.")]:
+        up.pop(k)
+    up.pop("restarts.hard.increase_ndirs_initial_amt", None)
+    if case["npt"] > n + 1 or up.get("restarts.increase_npt"):
+        up["init.random_initial_directions"] = True
+        up.pop("init.run_in_parallel", None)
+    start = draw(st.sampled_from(["z", "z", "moderate", "far"]))
+    if start != "z":
+        d = np.array([draw(g8) for _ in range(n)])
+        if not np.any(d):
+            d[0] = 1.0
+        d = d / np.linalg.norm(d)
+        case["x0"] = [float(v) for v in np.array(z) + d * mag * (1.0 if start == "moderate" else 10.0)]
+    rb = 0.1 * max(max(abs(v) for v in case["x0"]), 1.0)
+    case["rhobeg"] = rb
+    case["rhoend"] = rb * 10.0 ** (-draw(st.sampled_from([2, 3, 5])))
+    case["maxfun"] = min(case["maxfun"] or maxfun, maxfun)
+    case["tags"] = sorted(set([t for t in case["tags"] if not t.startswith("x0:") and not t.startswith("growing") and t != "regulariser"
+                               and t != "rhobeg=gap/2"] + ["projections", "proj-x0:" + start]))
+    return case
 
 
 def deterministic(case):
